@@ -278,7 +278,7 @@ class MCtx:
         out = {k: v for k, v in self.single.items() if not k.startswith("~~delete~~")}
         for k, (_, shp) in self.variadic.items():
             if not k.startswith("~~delete~~"):
-                out[k] = tuple(shp)
+                out["*" + k] = tuple(shp)  # plain and variadic names are separate namespaces ('a' and '*a' may coexist)
         return out
 
 
